@@ -169,7 +169,9 @@ class Intervals:
             op, a, b = nc
             for (x, y, o) in ((a, b, op), (b, a, {'Lt': 'Gt', 'Le': 'Ge', 'Eq': 'Eq', 'Ne': 'Ne'}[op])):
                 kx = strip(x, fn)
-                ent = out.setdefault(kx, [None, None])
+                ent = out.setdefault(kx, [None, None, []])
+                if o == 'Ne' and y[0] == 'const' and isinstance(y[2], int):
+                    ent[2].append(y[2])
                 if o in ('Lt', 'Le', 'Eq'):
                     ent[1] = (y, o == 'Lt', s) if ent[1] is None else ent[1]
                 if o in ('Gt', 'Ge', 'Eq'):
@@ -208,7 +210,13 @@ class Intervals:
         iv = self._eval(fn, block, e, depth, gb, seen)
         k = strip(e, fn)
         if k in gb and e[0] != 'const':
-            lo, hi = gb[k]
+            lo, hi, nes = gb[k]
+            for c in sorted(nes):
+                if c == iv.lo:
+                    iv = Ival(iv.lo + 1, iv.hi, iv.prop)
+            for c in sorted(nes, reverse=True):
+                if c == iv.hi:
+                    iv = Ival(iv.lo, iv.hi - 1, iv.prop)
             if hi is not None:
                 y, strict, sblk = hi
                 yi = self._eval(fn, block, y, depth, {}, seen) if y[0] != 'const' else Ival(y[2], y[2])
